@@ -68,6 +68,32 @@ Section Case.
   (* ---------- results ---------- *)
   Definition poison : fentry := mkF "!!raise" KFunc (mkIface [] [] None [] None) [].
 
+  Definition iface_eqb (a b : iface) : bool :=
+    strs_eqb (posonly a) (posonly b) && strs_eqb (args a) (args b) && opt_str_eqb (vararg a) (vararg b)
+    && strs_eqb (kwonly a) (kwonly b) && opt_str_eqb (kwarg a) (kwarg b).
+
+  Definition entries_of (owner : string) : list fentry :=
+    if String.eqb owner (mi_name (ic_target k)) then mi_entries (ic_target k)
+    else match find (fun m => String.eqb (mi_name m) owner) (ic_imports k) with Some m => mi_entries m | None => [] end.
+
+  (* __resolve_target_and_ir: a Func symbol that is (equal to) a key of the TARGET file's IR is taken from there,
+     whichever module the call sits in (symbol equality = name and interface); otherwise from the module the symbol
+     was defined in.  __resolve_real_class_target: the first class of that NAME, target file first, then the
+     imported modules in the order of import_irs. *)
+  Definition func_owner (owner nm : string) : string :=
+    match find_entry (mi_entries (ic_target k)) nm KFunc, find_entry (entries_of owner) nm KFunc with
+    | Some te, Some oe => if iface_eqb (fe_iface te) (fe_iface oe) then mi_name (ic_target k) else owner
+    | _, _ => owner
+    end.
+  Definition class_owner (owner nm : string) : string :=
+    match find_entry (mi_entries (ic_target k)) nm KClass with
+    | Some _ => mi_name (ic_target k)
+    | None => match find (fun m => match find_entry (mi_entries m) nm KClass with Some _ => true | None => false end) (ic_imports k) with
+              | Some m => mi_name m
+              | None => owner
+              end
+    end.
+
   Definition link_t (owner : string) (t : option sym) : option sym :=
     match t with
     | Some (mkSym nm (KImport q)) =>
@@ -75,6 +101,8 @@ Section Case.
       | RFuel => Some (mkSym "!!raise" KFunc)
       | _ => link_target module_of bl pip std fl fp fs fuel irs owner t
       end
+    | Some (mkSym nm KFunc) => Some (mkSym (qid (func_owner owner nm) nm) KFunc)
+    | Some (mkSym nm KClass) => Some (mkSym (qid (class_owner owner nm) nm) KClass)
     | _ => link_target module_of bl pip std fl fp fs fuel irs owner t
     end.
   Definition link_e (owner : string) (e : fentry) : fentry :=
